@@ -146,10 +146,10 @@ static ri_val full (ri_ctx *ri, ri_val v, const char *what) { /* require all 64 
 }
 
 /* ---------------- calling C ---------------- */
-typedef int64_t (*cfn_i) (int64_t, int64_t, int64_t, int64_t, int64_t, int64_t, double, double, double, double, double, double, double, double);
-typedef double (*cfn_d) (int64_t, int64_t, int64_t, int64_t, int64_t, int64_t, double, double, double, double, double, double, double, double);
-typedef float (*cfn_f) (int64_t, int64_t, int64_t, int64_t, int64_t, int64_t, double, double, double, double, double, double, double, double);
-typedef long double (*cfn_l) (int64_t, int64_t, int64_t, int64_t, int64_t, int64_t, double, double, double, double, double, double, double, double);
+typedef int64_t (*cfn_i) (int64_t, int64_t, int64_t, int64_t, int64_t, int64_t, double, double, double, double, double, double, double, double, int64_t, int64_t, int64_t, int64_t);
+typedef double (*cfn_d) (int64_t, int64_t, int64_t, int64_t, int64_t, int64_t, double, double, double, double, double, double, double, double, int64_t, int64_t, int64_t, int64_t);
+typedef float (*cfn_f) (int64_t, int64_t, int64_t, int64_t, int64_t, int64_t, double, double, double, double, double, double, double, double, int64_t, int64_t, int64_t, int64_t);
+typedef long double (*cfn_l) (int64_t, int64_t, int64_t, int64_t, int64_t, int64_t, double, double, double, double, double, double, double, double, int64_t, int64_t, int64_t, int64_t);
 
 static MIR_item_t known_func_item (ri_ctx *ri, uint64_t addr) {
   for (MIR_module_t m = DLIST_HEAD (MIR_module_t, *MIR_get_module_list (ri->ctx)); m != NULL; m = DLIST_NEXT (MIR_module_t, m))
@@ -196,21 +196,21 @@ static void do_call (ri_ctx *ri, frame *fr, MIR_insn_t insn) {
   } else { /* native function: must be one of the registered externals */
     int found = 0; for (int i = 0; i < ri->n_exts; i++) if ((uint64_t) (uintptr_t) ri->exts[i].addr == callee.u.u && ri->exts[i].is_func) found = 1;
     if (!found) { stop (ri, RI_UNSUPPORTED, "call of unknown address"); return; }
-    int64_t ia[6] = {0}; double da[8] = {0}; int ni = 0, nd = 0;
+    int64_t ia[10] = {0}; double da[8] = {0}; int ni = 0, nd = 0; /* integers beyond the sixth go to the stack in order (all doubles stay in registers) */
     for (size_t i = 0; i < nargs; i++) {
       MIR_var_t pv = VARR_GET (MIR_var_t, proto->args, i);
       if (pv.type == MIR_T_LD || (MIR_blk_type_p (pv.type))) { stop (ri, RI_UNSUPPORTED, "native call with ld/block argument"); return; }
       if (pv.type == MIR_T_F) { if (nd >= 8) goto toomany; double d = 0; memcpy (&d, &args[i].u.f, 4); da[nd++] = d; }
       else if (pv.type == MIR_T_D) { if (nd >= 8) goto toomany; da[nd++] = args[i].u.d; }
-      else { if (ni >= 6) goto toomany; ia[ni++] = args[i].u.i; }
+      else { if (ni >= 10) goto toomany; ia[ni++] = args[i].u.i; }
     }
     if (nres > 1) { stop (ri, RI_UNSUPPORTED, "native call with several results"); return; }
     void *fn = (void *) (uintptr_t) callee.u.u; memset (res, 0, sizeof res);
     MIR_type_t rt = nres ? proto->res_types[0] : MIR_T_I64;
-    if (rt == MIR_T_D) res[0].u.d = ((cfn_d) fn) (ia[0], ia[1], ia[2], ia[3], ia[4], ia[5], da[0], da[1], da[2], da[3], da[4], da[5], da[6], da[7]);
-    else if (rt == MIR_T_F) res[0].u.f = ((cfn_f) fn) (ia[0], ia[1], ia[2], ia[3], ia[4], ia[5], da[0], da[1], da[2], da[3], da[4], da[5], da[6], da[7]);
-    else if (rt == MIR_T_LD) res[0].u.ld = ((cfn_l) fn) (ia[0], ia[1], ia[2], ia[3], ia[4], ia[5], da[0], da[1], da[2], da[3], da[4], da[5], da[6], da[7]);
-    else res[0].u.i = ((cfn_i) fn) (ia[0], ia[1], ia[2], ia[3], ia[4], ia[5], da[0], da[1], da[2], da[3], da[4], da[5], da[6], da[7]);
+    if (rt == MIR_T_D) res[0].u.d = ((cfn_d) fn) (ia[0], ia[1], ia[2], ia[3], ia[4], ia[5], da[0], da[1], da[2], da[3], da[4], da[5], da[6], da[7], ia[6], ia[7], ia[8], ia[9]);
+    else if (rt == MIR_T_F) res[0].u.f = ((cfn_f) fn) (ia[0], ia[1], ia[2], ia[3], ia[4], ia[5], da[0], da[1], da[2], da[3], da[4], da[5], da[6], da[7], ia[6], ia[7], ia[8], ia[9]);
+    else if (rt == MIR_T_LD) res[0].u.ld = ((cfn_l) fn) (ia[0], ia[1], ia[2], ia[3], ia[4], ia[5], da[0], da[1], da[2], da[3], da[4], da[5], da[6], da[7], ia[6], ia[7], ia[8], ia[9]);
+    else res[0].u.i = ((cfn_i) fn) (ia[0], ia[1], ia[2], ia[3], ia[4], ia[5], da[0], da[1], da[2], da[3], da[4], da[5], da[6], da[7], ia[6], ia[7], ia[8], ia[9]);
     if (0) { toomany: stop (ri, RI_UNSUPPORTED, "native call with stack arguments"); return; }
   }
   ri->arena_top = saved_top; /* block copies die with the call */
